@@ -196,11 +196,17 @@ func genConfig(r *kernel.Rand, o GenOpts, nUE int) scn.Config {
 	for i := range name {
 		name[i] = printableChars[r.Intn(len(printableChars))]
 	}
-	if name[0] == ' ' {
-		name[0] = 'g'
-	}
-	if name[nameLen-1] == ' ' {
-		name[nameLen-1] = 'B'
+	// a PrintableString may begin and end with a blank, and a quoted YAML scalar keeps it: leave
+	// such names in one case out of three, otherwise use the usual trimmed form
+	if !r.Sub("blank").Chance(1, 3) {
+		if name[0] == ' ' {
+			name[0] = 'g'
+		}
+		if name[nameLen-1] == ' ' {
+			name[nameLen-1] = 'B'
+		}
+	} else if r.Sub("blank2").Bool() {
+		name[nameLen-1] = ' '
 	}
 	c.GnbName = string(name)
 	c.SST = r.Pick(1, 2, 3, r.Intn(256))
